@@ -260,7 +260,7 @@ Proof.
     unfold counter_of in G. destruct (aget value_eqb prop (vt_counts t')) as [c|] eqn:A.
     + apply (aget_In value_eqb value_eqb_eq) in A.
       destruct (gen_bundle_good _ _ _ _ _ _ _ I A G) as (G1 & G2 & G3).
-      split; auto. unfold good_thresh; simpl. repeat split; auto. rewrite G3; rewrite <- K; reflexivity.
+      split; auto. unfold good_thresh; simpl. split; [exact G1|]. split; [rewrite G3; reflexivity|]. split; auto.
     + unfold gen_bundle in G; simpl in G; discriminate.
 Qed.
 
@@ -303,7 +303,7 @@ Proof.
       apply (In_aset_other N.eqb N.eqb_eq); auto. intro; subst. apply NV. eapply In_fst; eauto.
   - apply (ti_end _ _ _ I).
   - intros k e H. destruct (ti_e _ _ _ I k e H) as (A & B & C0 & E). repeat split; auto.
-    intro C. apply aset_keys in C. destruct C as [C|C]; auto. subst. apply NE. eapply In_fst; eauto.
+    intro C. apply aset_keys in C. destruct C as [C|C]; auto. apply NE. rewrite <- C. eapply In_fst; eauto.
 Qed.
 
 Lemma equivocate_inv : forall D kk t x old counts' ec a b c,
@@ -345,7 +345,6 @@ Proof.
   - intros k e H. apply aset_In in H. destruct H as [[? ?]|H]; subst.
     + simpl. repeat split; auto.
       * exists old, x. unfold ekey_of, key_of in *; simpl. repeat split; auto; try congruence.
-        inversion OK; inversion K; subst; auto. rewrite <- K in OK. inversion OK; auto.
       * intro C. apply (adel_keys N.eqb N.eqb_eq) in C. destruct C; auto.
     + destruct (ti_e _ _ _ I k e H) as (A & B & C0 & E). repeat split; auto.
       intro C. apply (adel_keys N.eqb N.eqb_eq) in C. destruct C; auto.
@@ -389,8 +388,8 @@ Proof.
   destruct (aget N.eqb (vt_snd x) (vt_voters t)) as [old|] eqn:AV.
   - apply (aget_In N.eqb N.eqb_eq) in AV.
     destruct (value_eqb (vt_val old) (vt_val x)) eqn:VE; [apply none_post; auto|].
-    destruct (reaches pm (vt_step x) (w64 (vt_eqcount t + vt_w x))); [exact I|].
     cbv zeta.
+    destruct (reaches pm (vt_step x) (w64 (vt_eqcount t + vt_w x))); [apply wp_panic|].
     match goal with |- wp (match vt_voters ?T with _ => _ end) _ => assert (I' : TInv D kk T) end.
     { eapply equivocate_inv; eauto. destruct (c_count (counter_of t (vt_val old)) <=? vt_w old); auto. }
     match goal with |- wp (match ?L with _ => _ end) _ => destruct L eqn:EV' end.
@@ -404,7 +403,7 @@ Lemma vt_accept_spec : forall pm D kk t x,
 Proof.
   intros pm D kk t x I XD K. unfold vt_accept.
   destruct (aget N.eqb (vt_snd x) (vt_equiv t)) as [e0|] eqn:AE; [apply none_post; auto|].
-  destruct (over_threshold pm (vt_step x) t) eqn:OB; [exact I| |]; apply vt_accept_body_spec; auto.
+  destruct (over_threshold pm (vt_step x) t) eqn:OB; [apply wp_panic| |]; apply vt_accept_body_spec; auto.
 Qed.
 
 Lemma TInv_contract : forall D kk t a b c,
@@ -415,14 +414,14 @@ Lemma vt_checked_accept_spec : forall pm D kk t x,
   TInv D kk t -> In x D -> key_of x = kk -> wp (vt_checked_accept pm t x) (accept_post pm D kk x).
 Proof.
   intros pm D kk t x I XD K. unfold vt_checked_accept.
-  destruct (vt_step x =? s_propose); [exact I|].
-  destruct (vc_stepok t && negb (vc_step t =? vt_step x)); [exact I|].
+  destruct (vt_step x =? s_propose); [apply wp_panic|].
+  destruct (vc_stepok t && negb (vc_step t =? vt_step x)); [apply wp_panic|].
   apply wp_bind. eapply wp_mono.
   - apply vt_accept_spec; eauto. destruct (vc_stepok t); auto. apply TInv_contract; auto.
   - intros [t2 oth] [P1 P2]; simpl in *. destruct oth as [th|]; [|apply none_post; auto].
-    destruct (vc_emitted t2); [exact I|].
-    destruct (_ && is_bottom (th_val th)); [exact I|].
-    destruct (ub_votes (th_b th)); [exact I|].
-    destruct (is_bottom (th_val th) && (th_step th <? s_next)); [exact I|].
+    destruct (vc_emitted t2); [apply wp_panic|].
+    destruct (_ && is_bottom (th_val th)); [apply wp_panic|].
+    destruct (ub_votes (th_b th)); [apply wp_panic|].
+    destruct (is_bottom (th_val th) && (th_step th <? s_next)); [apply wp_panic|].
     split; simpl; auto. apply TInv_contract; auto.
 Qed.
